@@ -472,7 +472,11 @@ func (b *Builder) List(o interface{}, ident string) *List {
 }
 
 func (b *Builder) SetInverted(o interface{}) {
-	o.(*Pattern).inverted = true
+	if p, valid := o.(*Pattern); valid {
+		p.inverted = true
+	} else {
+		b.setErr(fmt.Errorf("%T does not support modifier", o))
+	}
 }
 
 func (b *Builder) SetRevisionDate(o interface{}, revisionDate string) {
